@@ -63,16 +63,6 @@ func vsReset(mode uint32) {
 	atomic.StoreUint32(&vsMode, mode)
 }
 
-// vsEntryHook is called at the start of functions instrumented with the rewriter's "entry" rule (observation only, no
-// scheduling point).
-var vsEntryHook func(fn string, arg interface{})
-
-func vsEntry(fn string, arg interface{}) {
-	if h := vsEntryHook; h != nil {
-		h(fn, arg)
-	}
-}
-
 func vsYield(pos string) {
 	switch atomic.LoadUint32(&vsMode) {
 	case vsOff:
